@@ -177,6 +177,17 @@ def _storage_sites(f):
     kind 'range' with bounds (lo, hi) for `items[lo..hi]`, kind 'split' with bounds (p,) for split_at(p) /
     rotate_left(p)"""
     out = []
+    # a Range between two expressions built as a value and used to index the array later (possibly after a join)
+    idx_phi = any(("Index<I>>::index" in (mir.callee_path(t_) or "") or "IndexMut<I>>::index_mut" in (mir.callee_path(t_) or "")) and len(f.call_args(b_)) == 2
+                  and isinstance(mir.strip_casts(f.deep_simplify(f.call_args(b_)[1])), tuple) and mir.strip_casts(f.deep_simplify(f.call_args(b_)[1]))[:1] == ("phi",)
+                  for b_, t_ in f.calls(False))
+    if idx_phi:
+        for b_, i_, st_, it_ in f.positions(False):
+            if not it_ and st_["k"] == "assign" and st_["rv"]["k"] == "aggregate" and str(st_["rv"].get("adt", "")).endswith("::Range"):
+                e_ = f.deep_simplify(f.rvalue_expr(st_["rv"], b_, i_))
+                d_ = dict(e_[3])
+                if "start" in d_ and "end" in d_:
+                    out.append((b_, "range", (mir.strip_casts(d_["start"]), mir.strip_casts(d_["end"]))))
     for b, t in f.calls(False):
         p_ = mir.callee_path(t) or ""
         args = [f.deep_simplify(a) for a in f.call_args(b)]
